@@ -1915,6 +1915,15 @@ where
     }
 }
 
+/// Verification hook (guard: `--cfg rustaudio_dasp_verif`): build a `Phase` in an arbitrary
+/// state so that one step can be checked from every state.
+#[cfg(rustaudio_dasp_verif)]
+impl<S> Phase<S> {
+    pub fn verif_from_parts(step: S, next: f64) -> Self {
+        Phase { step, next }
+    }
+}
+
 impl<S> Phase<S>
 where
     S: Step,
